@@ -148,6 +148,8 @@ def run_case(case):
     elif kind == "function":
         res.count("function")
         bounds = [(lo, lo + rng.randint(0, 7 if T < 3 else 4)) for lo in (rng.randint(0, 3) for _ in range(T))]
+        if T == 1 and rng.random() < 0.2:
+            bounds = [(rng.choice([0, 1, 250]), rng.choice([300, 400]))]           # degrees beyond 255
         calls = []
         style = rng.choice(["table", "formula"])
         box = list(product(*[range(a, b + 1) for a, b in bounds]))
